@@ -49,10 +49,6 @@ Proof. vm_compute. reflexivity. Qed.
 Lemma table_object_top : forallb (fun c => tassign table c c_object) classes = true.
 Proof. vm_compute. reflexivity. Qed.
 
-(* protocol classes are compared structurally; the nominal soundness statement is
-   about the classes whose instances are compared nominally *)
-Definition protocol_like (d : N) : bool := existsb (N.eqb d) [27; 28; 20; 21; 30; 31; 29]%N.
-
 (* tassign c d and o instance of c (with promotion)  =>  o instance of d (with promotion) *)
 Lemma table_nominal_sound :
   forallb (fun c' => forallb (fun c => forallb (fun d =>
@@ -67,3 +63,92 @@ Example laws_example :
   can_assign table false B A = false /\
   can_assign table false A (VLeaf (LAny 2)) = true /\ can_assign table true A (VLeaf (LAny 2)) = false.
 Proof. vm_compute. repeat split; reflexivity. Qed.
+
+(* ---- the two table facts behind transitivity on the simple fragment, for ALL class codes
+   (codes outside the dumped table have no row, so every relation is false on them) ---- *)
+Require Import PV.Proofs.C04Simple.
+
+Lemma mem_pair_In : forall c d l, mem_pair c d l = true -> In (c, d) l.
+Proof.
+  induction l as [|[a b] l IH]; simpl; intros H; [discriminate|].
+  apply orb_true_iff in H. destruct H as [H|H].
+  - apply andb_true_iff in H. destruct H as [H1 H2]. apply N.eqb_eq in H1. apply N.eqb_eq in H2. subst. now left.
+  - right. auto.
+Qed.
+
+Lemma mem_pair_first : forall c d l, mem_pair c d l = true -> In c (map fst l).
+Proof. intros c d l H. apply mem_pair_In in H. apply (in_map fst) in H. exact H. Qed.
+
+Lemma find_pair_first : forall {A} c d (l : list ((N * N) * A)) x,
+  find_pair c d l = Some x -> In c (map (fun p => fst (fst p)) l).
+Proof.
+  induction l as [|[[a b] y] l IH]; simpl; intros x H; [discriminate|].
+  destruct (N.eqb a c && N.eqb b d) eqn:E.
+  - apply andb_true_iff in E. destruct E as [E _]. apply N.eqb_eq in E. now left.
+  - right. eapply IH; eauto.
+Qed.
+
+Definition tassign_trans_check : bool :=
+  forallb (fun p => forallb (fun q =>
+     implb (N.eqb (snd p) (fst q) && negb (protocol_like (snd q))) (mem_pair (fst p) (snd q) tassign_tbl))
+     tassign_tbl) tassign_tbl.
+
+Lemma tassign_trans_check_ok : tassign_trans_check = true.
+Proof. vm_compute. reflexivity. Qed.
+
+Theorem table_tassign_transitive : tassign_transitive table.
+Proof.
+  intros c1 c2 c3 Hp H12 H23. cbn [tassign table] in *.
+  apply mem_pair_In in H12. apply mem_pair_In in H23.
+  pose proof tassign_trans_check_ok as H. unfold tassign_trans_check in H.
+  rewrite forallb_forall in H. specialize (H _ H12). rewrite forallb_forall in H. specialize (H _ H23).
+  cbn [fst snd] in H. rewrite N.eqb_refl, Hp in H. exact H.
+Qed.
+
+(* every class code that has a row in any of the three relations *)
+Definition all_keys : list N :=
+  map fst tassign_tbl ++ map fst issub_tbl ++ map (fun p => fst (fst p)) nomk_tbl.
+
+Definition nominal_up_check : bool :=
+  forallb (fun k => forallb (fun q =>
+     implb (negb (protocol_like (snd q)) && nominal table k (fst q)) (nominal table k (snd q)))
+     tassign_tbl) (nodup N.eq_dec all_keys).
+
+Lemma nominal_up_check_ok : nominal_up_check = true.
+Proof. vm_compute. reflexivity. Qed.
+
+Lemma nominal_key : forall k c, nominal table k c = true -> In k all_keys.
+Proof.
+  intros k c H. unfold nominal in H. cbn [nomk tassign issub table] in H. unfold all_keys.
+  destruct (find_pair k c nomk_tbl) as [b|] eqn:F.
+  - apply in_or_app. right. apply in_or_app. right. eapply find_pair_first; eauto.
+  - apply orb_true_iff in H. destruct H as [H|H].
+    + apply in_or_app. left. eapply mem_pair_first; eauto.
+    + apply in_or_app. right. apply in_or_app. left. eapply mem_pair_first; eauto.
+Qed.
+
+Theorem table_nominal_upward : nominal_upward table.
+Proof.
+  intros k c d Hp Hn Ht.
+  assert (Hk : In k (nodup N.eq_dec all_keys)) by (apply nodup_In; eapply nominal_key; eauto).
+  cbn [tassign table] in Ht. apply mem_pair_In in Ht.
+  pose proof nominal_up_check_ok as H. unfold nominal_up_check in H.
+  rewrite forallb_forall in H. specialize (H _ Hk). rewrite forallb_forall in H. specialize (H _ Ht).
+  cbn [fst snd] in H. rewrite Hp, Hn in H. exact H.
+Qed.
+
+(* end to end on the dumped table: the modelled acceptance is a preorder on the simple fragment *)
+Theorem simple_transitive_table : forall n A B C,
+  simple A = true -> simple B = true -> simple C = true -> not_any B = true ->
+  can_assign_f table (S (S (S n))) false A B = true -> can_assign_f table (S (S (S n))) false B C = true ->
+  can_assign_f table (S (S (S n))) false A C = true.
+Proof.
+  intros n A B C HA HB HC HnB H1 H2.
+  rewrite simple_closed_form in * by assumption.
+  eapply (acc_simple_trans table table_tassign_transitive table_nominal_upward); eauto.
+Qed.
+
+Theorem simple_reflexive_table : forall n A,
+  simple A = true -> forallb (atom_ok table) (atoms_of A) = true ->
+  can_assign_f table (S (S (S n))) false A A = true.
+Proof. intros n A HA Hok. rewrite simple_closed_form by assumption. now apply acc_simple_refl. Qed.
